@@ -161,6 +161,7 @@ class Report:
         self.exhaustive = None
         self.known = load_known_findings(prop)
         self.min_nontrivial = 2
+        self.write_evidence = True     # False for --replay runs (one case is not the tier's evidence)
 
     def count(self, key, n=1):
         self.counters[key] = self.counters.get(key, 0) + n
@@ -245,7 +246,8 @@ class Report:
         outroot = Path(os.environ.get('VERIF_OUT') or ROOT)
         evdir = outroot / 'evidence'
         evdir.mkdir(parents=True, exist_ok=True)
-        (evdir / f'{self.prop}.json').write_text(json.dumps(ev, indent=1, default=str) + '\n')
+        if self.write_evidence:
+            (evdir / f'{self.prop}.json').write_text(json.dumps(ev, indent=1, default=str) + '\n')
         for fid, n in self.known_seen.items():
             if fid.startswith('_ex_'):
                 continue
